@@ -82,10 +82,44 @@ def make_plans(ctx, tier, items):
             rng = C.Prng(C.mix_seed(ctx.seed, 30, 0, i)); i += 1
             simt = K.gen_simt(rng, items[name]['nfiles'])
             plans.append({'item': name, 'params': {'simt': simt, 'parallel': k != 0}})
+        if items[name]['wl']['format'] != 'dir':
+            # a torn archive: the first package's file was cut short (crashed copy, lost tail).  Whatever tar still delivers,
+            # abipkgdiff may report an error, or the true verdict if nothing is missing - never "no change" when there is one
+            for k in range(2):
+                rng = C.Prng(C.mix_seed(ctx.seed, 30, 5, i)); i += 1
+                plans.append({'item': name, 'params': {'simt': K.gen_simt(rng, items[name]['nfiles']), 'parallel': rng.chance(1, 2),
+                                                      'torn': {'side': rng.choice([1, 1, 2]), 'permille': rng.range(20, 980)}}})
     return plans
 
 
+def execute_torn(ctx, it, params):
+    tn = params['torn']
+    src = it['p1'] if tn['side'] == 1 else it['p2']
+    body = open(src, 'rb').read()
+    cut = max(1, len(body) * tn['permille'] // 1000)
+    name = os.path.basename(src)
+
+    def prepare(run):
+        open(os.path.join(run, name), 'wb').write(body[:cut])
+    p1, p2 = ('@RUN@/' + name, it['p2']) if tn['side'] == 1 else (it['p1'], '@RUN@/' + name)
+    o = ctx.run('abipkgdiff', K.spec(it['wl'], p1, p2, dict(params['simt']), parallel=params.get('parallel', True)), prepare=prepare)
+    st = o.res.get('simt', {})
+    m = it['model']
+    verdict, key = None, None
+    if st.get('fatal_class'):
+        verdict, key = (st['fatal_class'], st.get('fatal_details', '')[:600]), st['fatal_class']
+    elif o.klass[0] != 'exit':
+        verdict, key = ('crash-in-parallel-run', o.status_key()), 'crash:' + o.status_key()
+    elif o.exit == 0 and m['status'] != 0:
+        verdict, key = ('verdict-mismatch', 'package %d is a torn archive (%d of %d bytes) and the packages differ (true verdict %d), yet abipkgdiff exits 0' % (
+            tn['side'], cut, len(body), m['status'])), 'verdict-mismatch:torn-archive'
+    return F.Result(verdict, key, ['media/torn-archive'], [(it['name'], 'torn', tn['side'], tn['permille'])], digest=(o.exit, C.sha(o.stdout or b''), st.get('log_hash')),
+                    info={'exit': o.exit, 'model_status': m['status'], 'torn': tn, 'bytes_kept': cut, 'archive_bytes': len(body)}, steps=st.get('steps', 0), outcome=o.status_key())
+
+
 def execute(ctx, it, params):
+    if params.get('torn'):
+        return execute_torn(ctx, it, params)
     simt = dict(params['simt'])
     o = ctx.run('abipkgdiff', K.spec(it['wl'], it['p1'], it['p2'], simt, parallel=params.get('parallel', True)))
     st = o.res.get('simt', {})
